@@ -559,7 +559,10 @@ def run(tier, seed):
             if fs is None:
                 sfail.append({"harness": r})
                 continue
-            sz = ",".join(str(f["Size"]) for f in fs) or "0"
+            # the daemon makes its pass when a file is created: the newest file held little more than its header then and
+            # has grown since.  What the pass left must satisfy the selection rule for the newest file as it was — counted
+            # here with one byte, the weakest reading — not for its final size
+            sz = ",".join(str(f["Size"] if i else min(1, f["Size"])) for i, f in enumerate(fs)) or "0"
             o = model.ask("C16 oracle-gc %d %s %s" % (comb, sz, "t" * max(1, len(fs))))
             if o != "ok" or not fs:
                 sfail.append({"secondary logger": "own directory" if own else "main directory", "LogFileMaxSize": mxs, "bound": comb, "messages": nmsg,
